@@ -103,7 +103,7 @@ def main():
             if rc:
                 print('apply to copy failed', out)
                 return 3
-            env_prefix = 'VERIF_REPO=%s VERIF_JOBS=%s ' % (rcopy, os.environ.get('VERIF_JOBS', '6'))
+            env_prefix = 'VERIF_OUT=/tmp/verif-eval-out VERIF_REPO=%s VERIF_JOBS=%s ' % (rcopy, os.environ.get('VERIF_JOBS', '6'))
         else:
             rc, out = sh('git -C /repo apply %s' % os.path.join(dst, 'patch.diff'))
             if rc:
